@@ -44,7 +44,8 @@ LEN_PAIRS = [(s, t) for s in L5 for t in L5 if s + t <= 10.0]
 LEN_PAIRS_QUICK = [(0.0, 1e-6), (1e-6, 0.1), (0.1, 1.0), (1.0, 1.0), (0.0, 10.0)]
 VALS = [1e-6, 1e-3, 0.1, 1.0, 3.0, 1e3, 1e6]
 PI4 = {"u": [0.25, 0.25, 0.25, 0.25], "g": [0.1, 0.2, 0.3, 0.4], "s": [0.4, 0.1, 0.1, 0.4],
-       "k": [0.97, 0.01, 0.01, 0.01], "x": [1e-5, 1e-3, 0.5, 1.0 - 0.5 - 1e-3 - 1e-5]}
+       "k": [0.97, 0.01, 0.01, 0.01], "x": [1e-5, 1e-3, 0.5, 1.0 - 0.5 - 1e-3 - 1e-5],
+       "y": [2e-3, 1e-2, 0.5, 1.0 - 0.5 - 1e-2 - 2e-3]}
 
 GN_NAMES = [f"{a}>{b}" for a, b in itertools.permutations("ACTG", 2) if (a, b) != ("T", "G")]
 SSGN_NAMES = ["(G>T | C>A)", "(C>T | G>A)", "(C>G | G>C)", "(A>T | T>A)", "(A>G | T>C)"]
@@ -325,20 +326,23 @@ def check_named(mid, solved, pi, params, lengths, expm, want_p):
     return True
 
 
-def run(fn, prefix, case):
-    """turn Broken/Refusal/unexpected exceptions of the real code into contract results"""
+def run(fn, prefix, case, expm=None):
+    """turn Broken/Refusal/unexpected exceptions of the real code into contract results.  The expm setting is part
+    of the key only for the clauses it can influence (P-clauses and exceptions)"""
     try:
         fn()
     except Refusal:
         return ("ok", False)
     except Broken as b:
-        return ("fail", f"{prefix}/{b.clause}", f"{case}: {b.msg}")
+        mid = f"/{expm}" if expm and b.clause.startswith("P") else ""
+        return ("fail", f"{prefix}{mid}/{b.clause}", f"{case}: {b.msg}")
     except (KeyboardInterrupt, SystemExit):
         raise
     except Exception as e:
         import traceback
         where = traceback.extract_tb(e.__traceback__)[-1]
-        return ("fail", f"{prefix}/raises-{type(e).__name__}",
+        mid = f"/{expm}" if expm else ""
+        return ("fail", f"{prefix}{mid}/raises-{type(e).__name__}",
                 f"{case}: {type(e).__name__}: {e} at {where.filename.split('/')[-1]}:{where.name}")
     return ("ok", True)
 
@@ -357,10 +361,15 @@ def param_vectors(n, tier, rnd, richer=False):
         for v in ext:
             if v != 1.0:
                 out.append([v if k == i else 1.0 for k in range(n)])
+    pairs = list(itertools.combinations(range(n), 2))
+    for i, j in pairs if (thorough or n <= 5) else pairs[::3]:
+        # two parameters moved together: exactly (repeated eigenvalues, possibly a defective Q) and almost
+        out.append([3.0 if k in (i, j) else 1.0 for k in range(n)])
+        out.append([3.0 if k == i else 3.0 + 1e-9 if k == j else 1.0 for k in range(n)])
     if thorough and n <= 6:
         out += [list(v) for v in itertools.product((1e-6, 1e6), repeat=n)]
         out += [list(v) for v in itertools.product((0.1, 3.0), repeat=n)]
-    k = (60 if richer else 30) if thorough else (16 if richer else 8)
+    k = (60 if richer else 15) if thorough else (16 if richer else 6)
     for _ in range(k):
         out.append([rnd.choice(VALS) for _ in range(n)])
     for _ in range(k):
@@ -377,7 +386,7 @@ def pi4_list(mid, tier, rnd):
     if NAMED.get(mid, {}).get("fixed_pi"):
         return [None]
     out = [PI4[k] for k in (("u", "g", "s", "k", "x") if tier == "thorough" else ("g", "k", "x"))]
-    for _ in range(4 if tier == "thorough" else 1):
+    for _ in range(2 if tier == "thorough" else 1):
         v = [rnd.gammavariate(0.5, 1.0) + 1e-4 for _ in range(4)]
         out.append([x / sum(v) for x in v])
     return out
@@ -489,12 +498,13 @@ def contract_p(case):
     pi = expand_pi(pispec, keys_for(mid))
     kind = "nuc-solved" if solved else NAMED[mid]["kind"]
     return run(lambda: check_named(mid, solved, pi, [tuple(p) for p in params], (s, t, s + t), ex, True),
-               f"P/{kind}/{ex}", case)
+               f"P/{kind}", case, ex)
 
 
 # ------------------------------------------------------------------------------------------------ codon models
 def gen_codon(tier, seed):
-    """round-robin over the 10 codon models so that with shards=10 every worker builds exactly one model"""
+    """round-robin over the 10 codon models: with shards=20 case i goes to worker i % 20, which only ever sees model
+    i % 10, so every worker builds exactly one of the (slow to construct) 61-state models"""
     thorough = tier == "thorough"
     per_model = []
     for mi, mid in enumerate(CODON):
@@ -503,7 +513,7 @@ def gen_codon(tier, seed):
         n = len(names)
         pvs = [[v] * n for v in ((1e-6, 0.1, 1.0, 3.0, 1e6) if thorough else (1.0, 3.0))]
         pvs += [[v if k == i else 1.0 for k in range(n)] for i in range(min(n, 3)) for v in (1e-6, 1e6)]
-        for _ in range(12 if thorough else 3):
+        for _ in range(6 if thorough else 3):
             pvs.append([10 ** rnd.uniform(-1.5, 1.5) for _ in range(n)])
             pvs.append([rnd.choice(VALS) for _ in range(n)])
         if NAMED[mid]["weight"] == "monomer":
@@ -511,9 +521,9 @@ def gen_codon(tier, seed):
         else:
             pis = [["u"], ["nuc", PI4["g"]], ["rand", seed + mi, 1.0], ["skew", seed + mi]]
             if thorough:
-                pis += [["nuc", PI4["k"]], ["rand", seed + mi + 50, 0.3], ["skew", seed + mi + 50]]
+                pis += [["nuc", PI4["k"]], ["rand", seed + mi + 50, 0.3]]
         pairs = [(0.0, 1e-6), (0.1, 1.0), (1.0, 9.0)] if not thorough else \
-                [(0.0, 1e-6), (1e-6, 0.1), (0.1, 1.0), (1.0, 1.0), (1.0, 9.0), (0.0, 10.0)]
+                [(0.0, 1e-6), (1e-6, 0.1), (0.1, 1.0), (1.0, 9.0)]
         cases = []
         for pi_i, pispec in enumerate(pis):
             for pv_i, pv in enumerate(pvs):
@@ -533,7 +543,7 @@ def contract_codon(case):
     mid, solved, params, pispec, s, t, ex = case
     pi = expand_pi(pispec, keys_for(mid))
     return run(lambda: check_named(mid, False, pi, [tuple(p) for p in params], (s, t, s + t), ex, True),
-               f"codon/{NAMED[mid]['kind']}/{ex}", case)
+               f"codon/{NAMED[mid]['kind']}", case, ex)
 
 
 # ------------------------------------------------------------------------------------------------ rate classes
@@ -660,7 +670,7 @@ def check_rates(case):
 
 
 def contract_rates(case):
-    return run(lambda: check_rates(case), f"rates/{case[0]}/{case[8]}", case)
+    return run(lambda: check_rates(case), f"rates/{case[0]}", case, case[8])
 
 
 # ------------------------------------------------------------------------------------------------ user-built predicate models
@@ -695,8 +705,8 @@ def gen_user(tier, seed):
     pairs = [(0.0, 0.1), (1.0, 9.0)] if not thorough else [(0.0, 1e-6), (0.1, 1.0), (1.0, 9.0)]
     for desc, names, weight, claim in descs:
         nvec = 4 if thorough else 2
-        for vi in range(nvec + 2):
-            val = None if vi >= 2 else (3.0, 0.2)[vi]
+        for vi in range(nvec + 3):
+            val = None if vi >= 3 else (3.0, 0.2, "near-equal")[vi]
             vseed = rnd.randrange(10 ** 6)
             for pk in (("g", "x") if thorough else ("g",)):
                 for (s, t) in pairs:
@@ -709,6 +719,8 @@ def check_user(case):
     sm = get_sm(desc)
     states = sm.get_motifs()
     mal = list(sm.get_mprob_alphabet())
+    if len(mal) > 5 and min(pi4) < 2e-3:
+        pi4 = PI4["y"]        # word probabilities must stay inside the (1e-6, 1) bound of motif probabilities
     mono = dict(zip("TCAG", pi4))
     if len(mal) == 4:
         pi = mono
@@ -722,7 +734,10 @@ def check_user(case):
     lf0 = sm.make_likelihood_function(_tree())
     pnames = [p for p in lf0.get_param_names() if p not in NOT_RATE]
     r = random.Random(vseed)
-    params = [(p, val if val is not None else 10 ** r.uniform(-2, 2)) for p in pnames]
+    if val == "near-equal":      # all parameters equal up to 1e-9 relative steps (almost repeated eigenvalues)
+        params = [(p, 3.0 + 1e-9 * i) for i, p in enumerate(pnames)]
+    else:
+        params = [(p, val if val is not None else 10 ** r.uniform(-2, 2)) for p in pnames]
     if names is not None and sorted(pnames) != sorted(names):
         raise Broken("parameter-names", f"model has {pnames}, built from predicates {names}")
     sm, lf = configure(desc, pi, params, (s, t, s + t), ex)
@@ -772,7 +787,7 @@ def user_shape(desc):
 
 
 def contract_user(case):
-    return run(lambda: check_user(case), f"user/{user_shape(case[0])}/{case[9]}", case)
+    return run(lambda: check_user(case), f"user/{user_shape(case[0])}", case, case[9])
 
 
 # ------------------------------------------------------------------------------------------------ exponentiator classes
@@ -819,6 +834,9 @@ def gen_backends(tier, seed):
                 yield [be, q, t]
 
 
+CPU_LIMIT = 3.0      # seconds of process CPU time; the 4x4 / 61x61 series need milliseconds when they converge
+
+
 class _Timeout(Exception):
     pass
 
@@ -835,8 +853,8 @@ def check_backend(case):
     ref = S.spec_expm(Q, t)
     if be == "SemiSymmetricExponentiator" and not reversible:
         raise Refusal("needs a reversible process")      # documented limitation of that back-end
-    old = signal.signal(signal.SIGALRM, _alarm)
-    signal.setitimer(signal.ITIMER_REAL, 20.0)
+    old = signal.signal(signal.SIGVTALRM, _alarm)
+    signal.setitimer(signal.ITIMER_VIRTUAL, CPU_LIMIT)
     try:
         try:
             if be.startswith("ExpDefn:"):
@@ -850,10 +868,11 @@ def check_backend(case):
                 raise Refusal(str(e))
             raise
         except _Timeout:
-            raise Broken("does-not-terminate", f"no result for t={t} within 20 s")
+            raise Broken("P-does-not-terminate", f"no result for t={t} within {CPU_LIMIT} s of CPU time "
+                         f"(max |Q t| = {abs(Q).max() * t:.3g})")
     finally:
-        signal.setitimer(signal.ITIMER_REAL, 0)
-        signal.signal(signal.SIGALRM, old)
+        signal.setitimer(signal.ITIMER_VIRTUAL, 0)
+        signal.signal(signal.SIGVTALRM, old)
     p_clauses(numpy.array(P, float), ref, t, w, False, False)
     return True
 
@@ -927,15 +946,15 @@ BOUNDED = {
                 "P(0)=I, P(s)P(t)=P(s+t); non-trivial unless the back-end refused; distinct by case hash",
     },
     "codon": {
-        "gen": gen_codon, "contract": contract_codon, "shards": len(CODON),
+        "gen": gen_codon, "contract": contract_codon, "shards": 2 * len(CODON),
         "functions": ["get_model (10 codon models)", "ConditionalMotifProbModel.calc_word_weight_matrix",
                       "MonomerProbModel.calc_word_probs", "MonomerProbModel.calc_word_weight_matrix",
                       "LikelihoodFunction.get_rate_matrix_for_edge", "LikelihoodFunction.get_psub_for_edge"],
         "bound": "10 codon models (61 states) x parameter vectors {all-equal, off-axis at the bounds, seeded samples} x "
                  "motif probabilities {uniform, F1x4 product, seeded Dirichlet, 1e-5-skew; monomer vectors for MG94} x "
-                 "3 (thorough 6) length pairs x 4 expm settings",
+                 "3 (thorough 4) length pairs x 4 expm settings",
         "rule": "as psub; spec_Q for CNF*/MG94*/GY94/Y98/GNC, intrinsic clauses only for H04*; cases are dealt round-robin "
-                "so each of the 10 workers builds one model",
+                "so each of the 20 workers builds one model",
     },
     "rate_classes": {
         "gen": gen_rates, "contract": contract_rates,
@@ -966,8 +985,8 @@ BOUNDED = {
                       "TaylorExponentiator", "SemiSymmetricExponentiator", "ExpDefn.calc", "_EigenPade"],
         "bound": "rate matrices written by the spec (HKY85 / GTR / GN on 4 states, GY94 on 61) x t in {0,1e-6,0.1,1,10} "
                  "(thorough + 0.01, 3) x every exponentiator class of maths/matrix_exponentiation.py and every ExpDefn setting",
-        "rule": "a case = (back-end, Q description, t); P-clauses against spec_expm; a 20 s alarm turns non-termination "
-                "into a failure",
+        "rule": "a case = (back-end, Q description, t); P-clauses against spec_expm; a 3 s CPU-time alarm turns "
+                "non-termination into a failure",
     },
     "discrete_time": {
         "gen": gen_discrete, "contract": contract_discrete, "shards": 4,
